@@ -17,7 +17,7 @@ import (
 // Exact part: the stored filter's (m, k) equal the textbook optimum for (measured
 // distinct count, configured rate), and the measured count equals the reference's
 // distinct count. Measured part: a fixed, seed-independent universe of absent entries;
-// the observed rate must stay below rate*1.25 + 5 sigma (binomial).
+// the observed rate must stay below 3*rate + 5 sigma (binomial).
 
 const c26Universe = 200000
 
@@ -181,6 +181,17 @@ func init() {
 				ns = append(ns, 100000, 300000)
 			}
 			var cs []Case
+			if tier == "quick" {
+				// volume: a block beyond 2^16 entries per filter at the tightest rates
+				for _, x := range []struct {
+					n    int
+					rate float64
+					p    string
+				}{{100000, 1e-4, "flush"}, {100000, 1e-3, "merge-rebuilt"}, {150000, 0.01, "flush"}} {
+					x := x
+					cs = append(cs, Case{ID: fmt.Sprintf("n%d/p%g/%s", x.n, x.rate, x.p), Run: func() CaseResult { return c26Case(x.n, x.rate, x.p) }})
+				}
+			}
 			for _, n := range ns {
 				for _, rate := range []float64{0.5, 0.1, 0.01, 1e-3, 1e-4} {
 					for _, p := range []string{"flush", "merge-rebuilt", "merge-copied"} {
@@ -194,6 +205,6 @@ func init() {
 			}
 			return cs
 		},
-		Rule: "grid: distinct entries n x rate x producer (flush, merge-rebuilt block, verbatim-copied block) and file level; per filter: (m,k) must equal the textbook optimum for the reference's distinct count, and the measured rate over a fixed universe of 200000 absent entries must stay within rate*1.25 + 5 sigma; deterministic given the tree",
+		Rule: "grid: distinct entries n x rate x producer (flush, merge-rebuilt block, verbatim-copied block) and file level; per filter: (m,k) must equal the textbook optimum for the reference's distinct count, and the measured rate over a fixed universe of 200000 absent entries must stay within 3 x rate + 5 sigma (the repository's own documented tolerance); quick adds three volume cases (1e5 entries at 1e-4 and 1e-3, 1.5e5 at 0.01), thorough the full grid up to 3e5; deterministic given the tree",
 	}
 }
